@@ -375,3 +375,74 @@ func propRenderHistory(t *rapid.T) {
 }
 
 func TestPropRenderHistory(t *testing.T) { rapid.Check(t, propRenderHistory) }
+
+// propWriterShapes: requests arrive on writers of different shapes - with and without http.Flusher (a test double, a
+// wrapping middleware's writer) - and the handler flushes through c.Resp as handlers do.  Whatever the earlier
+// requests' writers could do, a request behaves as on a fresh router with its own writer, and a finished request's
+// writer receives nothing from later requests.
+type plainWriter struct{ rec *chain.RecWriter }
+
+func (p plainWriter) Header() http.Header         { return p.rec.Header() }
+func (p plainWriter) Write(b []byte) (int, error) { return p.rec.Write(b) }
+func (p plainWriter) WriteHeader(code int)        { p.rec.WriteHeader(code) }
+
+func buildFlushRouter() *rux.Router {
+	r := rux.New()
+	r.GET("/f/{id}", func(c *rux.Context) {
+		c.SetStatus(201)
+		c.WriteString("a:" + c.Param("id"))
+		c.Resp.(http.Flusher).Flush()
+		c.WriteString(":b")
+	})
+	r.GET("/plain/{id}", func(c *rux.Context) { c.WriteString("plain:" + c.Param("id")) })
+	return r
+}
+
+func propWriterShapes(t *rapid.T) {
+	ev.Case()
+	r := buildFlushRouter()
+	serve := func(rt *rux.Router, p string, flusher bool) (rec *chain.RecWriter, out string) {
+		rec = chain.NewRec()
+		var w http.ResponseWriter = rec
+		if !flusher {
+			w = plainWriter{rec}
+		}
+		var pv any
+		func() {
+			defer func() { pv = recover() }()
+			rt.ServeHTTP(w, httptest.NewRequest("GET", p, nil))
+		}()
+		return rec, fmt.Sprintf("panicked=%v calls=%s", pv != nil, rec.Log())
+	}
+	type done struct {
+		rec *chain.RecWriter
+		log string
+		p   string
+	}
+	var earlier []done
+	n := rapid.IntRange(2, 6).Draw(t, "nreq")
+	kinds := map[bool]bool{}
+	for i := 0; i < n; i++ {
+		p := rapid.SampledFrom([]string{"/f/1", "/f/2", "/plain/3"}).Draw(t, "path")
+		flusher := rapid.Bool().Draw(t, "writerCanFlush")
+		ev.Eval()
+		rec, got := serve(r, p, flusher)
+		_, want := serve(buildFlushRouter(), p, flusher)
+		if got != want {
+			t.Fatalf("request %d (GET %s, writer with Flusher: %v): %s; as first request on a fresh router: %s", i, p, flusher, got, want)
+		}
+		for _, e := range earlier {
+			if now := e.rec.Log(); now != e.log {
+				t.Fatalf("request %d (GET %s, writer with Flusher: %v) reached the writer of the finished request GET %s: its calls were %s, now %s", i, p, flusher, e.p, e.log, now)
+			}
+		}
+		earlier = append(earlier, done{rec, rec.Log(), p})
+		kinds[flusher] = true
+	}
+	if len(kinds) == 2 {
+		ev.Class("history-with-flushing-and-non-flushing-writers")
+		ev.NonTrivial(fmt.Sprint(len(earlier), earlier[0].p, earlier[len(earlier)-1].p), func() string { return fmt.Sprintf("%d requests on writers of both shapes", n) })
+	}
+}
+
+func TestPropWriterShapes(t *testing.T) { rapid.Check(t, propWriterShapes) }
